@@ -222,6 +222,20 @@ static Probe probe(const Plan& plan, const Target& t) {
   close(fds[0]);
   int status = 0;
   waitpid(pid, &status, 0);
+  bool done = false, crashline = false;
+  for (const std::string& l : split_lines(buf)) {
+    if (l == "DONE") done = true;
+    if (l.compare(0, 6, "CRASH ") == 0) crashline = true;
+  }
+  if (t.crash && !done && !crashline) {
+    // silent death (e.g. a UBSan report does not run the death callback): classify by the wait status
+    bool san = WIFEXITED(status) && WEXITSTATUS(status) == 77;
+    bool sig = WIFSIGNALED(status);
+    if ((t.oracle == "sanitizer" && san) || (t.oracle == "signal" && sig)) {
+      pr.hit = true;
+      pr.msg = "silent death";
+    }
+  }
   for (const std::string& l : split_lines(buf)) {
     if (!t.crash && l.compare(0, 4, "HIT ") == 0) {
       std::vector<std::string> w = split_ws(l);
@@ -234,7 +248,7 @@ static Probe probe(const Plan& plan, const Target& t) {
     }
     if (t.crash && l.compare(0, 6, "CRASH ") == 0) {
       // same kind of death, same owning property
-      if (contains(l, ("kind=" + t.oracle + " ").c_str()) && contains(l, ("owner=" + t.prop).c_str())) {
+      if (contains(l, ("kind=" + t.oracle + " ").c_str()) && (t.prop.empty() || contains(l, ("owner=" + t.prop).c_str()))) {
         pr.hit = true;
         pr.msg = l;
       }
@@ -365,6 +379,7 @@ int main(int argc, char** argv) {
     else sim_die(("unknown argument " + a).c_str());
   }
   load_catalogue(data);
+  if (mode == "batch" || mode == "replay" || mode == "minimise") zygote_start();  // before any library call
   capture_init();
   crash_handlers_init();
   struct rlimit rl;
